@@ -81,6 +81,8 @@ def _name_failure(fit, st, ev):
         if fit["npc"] == fit["rank"] and fit["tail"] == 0:
             if st["ssLeft"] > 3 or abs(sum(ve) - 10 ** 9) > st_tol:
                 return "full-rank-closure", "all components taken: residual %.3g of ss0, explained variances sum to %.7f %%" % (st["ssLeft"] * 1e-9, sum(ve) * 1e-7)
+    if e == "Project" and ev["err"] <= 10000 and ev.get("gr", 0) > 10000:
+        return "residual-matrix", "GetResidualMatrix differs from preprocessed data - scores x loadings^T by %.3g of |E0| > 1e-8" % (ev["gr"] * 1e-12)
     if e == "Project" and ev["err"] > 10000:
         return "reprojection", "projecting the training matrix: relative score error %.3g > 1e-8" % (ev["err"] * 1e-12)
     if e == "Back" and ev["err"] > 10000 + 4 * min(ev.get("repr", 0), 100000):
